@@ -8,7 +8,9 @@
 (*   TSInit(strict)                 initial state                          *)
 (*   TSStart(tb, name, attrs, sc)   feedback for a start tag               *)
 (*   TSEnd(tb, name)                feedback for an end tag                *)
-(* both return [tb, tt (text type to switch to, "" = none), cdata, err].   *)
+(* both return [tb, tt (text type to switch to, "" = none), cdata, set,    *)
+(* err]; set = the feedback is SetAllowCdata(cdata) (the parser keeps its  *)
+(* own flag otherwise).                                                    *)
 (***************************************************************************)
 EXTENDS Naturals, Sequences, Names
 
@@ -57,11 +59,11 @@ GuardEnd(tb, n) ==
   ELSE tb
 
 \* ---- namespace stack -----------------------------------------------------------------------
-Enter(tb, ns) == LET t == [tb EXCEPT !.ns = Append(@, ns)] IN [tb |-> t, tt |-> "", cdata |-> ns # "html", err |-> FALSE]
+Enter(tb, ns) == LET t == [tb EXCEPT !.ns = Append(@, ns)] IN [tb |-> t, tt |-> "", cdata |-> ns # "html", set |-> TRUE, err |-> FALSE]
 Leave(tb) ==
-  IF Len(tb.ns) <= 1 THEN [tb |-> tb, tt |-> "", cdata |-> Cur(tb) # "html", err |-> FALSE]
-  ELSE LET t == [tb EXCEPT !.ns = SubSeq(@, 1, Len(@) - 1)] IN [tb |-> t, tt |-> "", cdata |-> Cur(t) # "html", err |-> FALSE]
-Keep(tb, tt) == [tb |-> tb, tt |-> tt, cdata |-> Cur(tb) # "html", err |-> FALSE]
+  IF Len(tb.ns) <= 1 THEN [tb |-> tb, tt |-> "", cdata |-> Cur(tb) # "html", set |-> FALSE, err |-> FALSE]
+  ELSE LET t == [tb EXCEPT !.ns = SubSeq(@, 1, Len(@) - 1)] IN [tb |-> t, tt |-> "", cdata |-> Cur(t) # "html", set |-> TRUE, err |-> FALSE]
+Keep(tb, tt) == [tb |-> tb, tt |-> tt, cdata |-> Cur(tb) # "html", set |-> FALSE, err |-> FALSE]
 
 HasAttrNamed(attrs, names) == \E i \in 1..Len(attrs) : attrs[i][1] \in names
 HtmlEncoding(attrs) == \E i \in 1..Len(attrs) :
@@ -79,7 +81,7 @@ ForeignStart(tb, n, attrs, sc) ==
 TSStart(tb, n, attrs, sc) ==
   LET g  == IF tb.strict THEN GuardStart(tb, n) ELSE [guard |-> tb.guard, depth |-> tb.depth, err |-> FALSE]
       t  == [tb EXCEPT !.guard = g.guard, !.depth = g.depth]
-  IN IF g.err THEN [tb |-> t, tt |-> "", cdata |-> Cur(t) # "html", err |-> TRUE]
+  IN IF g.err THEN [tb |-> t, tt |-> "", cdata |-> Cur(t) # "html", set |-> FALSE, err |-> TRUE]
      ELSE IF n = n_svg THEN Enter(t, "svg")
      ELSE IF n = n_math THEN Enter(t, "mathml")
      ELSE IF Cur(t) # "html" THEN ForeignStart(t, n, attrs, sc)
